@@ -36,7 +36,15 @@ func init() {
 
 func c32Snippet(r *Rand, pfx string) string {
 	n := 2 + r.Intn(6)
-	switch r.Intn(16) {
+	switch r.Intn(20) {
+	case 16: // a scope's config table written and read by two stages of one pipeline
+		return fmt.Sprintf("function %scg { config set proc strict-vars false -> config get proc strict-arrays; config get proc strict-vars | config set proc strict-arrays true }; %scg; %scg | %scg", pfx, pfx, pfx, pfx)
+	case 17: // config set racing with commands that read their settings from the same scope
+		return fmt.Sprintf("function %sch { a [1..%d] -> foreach q { config set proc strict-vars false; out $q } | regexp s/1/one/ }; %sch", pfx, n, pfx)
+	case 18: // two loops in one pipeline (distinct variables)
+		return fmt.Sprintf("a [1..%d] -> foreach la { out \"a$la\" } -> foreach lb { out \"b$lb\" } -> count", n+2)
+	case 19: // progress telemetry and tryerr read the pipe counters while the pipe is busy
+		return fmt.Sprintf("tryerr { a [1..%d]; a [1..3] } -> foreach lt { out $lt } -> count", n+4)
 	case 0:
 		return fmt.Sprintf("out hello | regexp s/l/L/; a [1..%d] -> foreach x { out $x }", n)
 	case 1:
